@@ -1427,6 +1427,44 @@ def mon_c07(ix: Index):  # noqa: C901, PLR0912
             if e["i"] < t_last:
                 out.append(V("C07", "C07/pending-while-user-function-running/%s" % e.get("fnkind"),
                              "PENDING returned while %s function at %s (entered before the last other branch parked) was still executing" % (e["fnkind"], path), e["i"]))
+    # no in-flight work is silently abandoned: a terminal outcome while an operation is parked is only legitimate when a map/parallel
+    # enclosing it was decided by its completion policy (the parked branch is then an orphan by design)
+    for inv, evs in ix.by_inv.items():
+        end = next((x for x in evs if x["kind"] == "inv_end_summary"), None)
+        if end is None or not end.get("outcome") or end["outcome"]["kind"] != "return":
+            continue
+        v = end["outcome"]["value"]
+        if not isinstance(v, dict) or v.get("Status") not in ("SUCCEEDED", "FAILED"):
+            continue
+        lastdel = {}
+        batches = {}
+        for s_ in evs:
+            if s_["kind"] in ("susp", "ret", "exc", "abort", "call"):
+                lastdel[(s_.get("path"), s_.get("phase"))] = s_
+            elif s_["kind"] == "batch" and s_.get("items") is not None:
+                batches[s_["path"]] = s_
+        for s_ in lastdel.values():
+            if s_["kind"] != "susp" or s_.get("opkind") not in LEAF + ("wfcb",):
+                continue
+            verdicts = []
+            p_ = ctx_path(s_["path"])
+            while p_ is not None:
+                node = ix.nodes.get(p_)
+                if node is not None and node["k"] in ("par", "map") and p_ in batches:
+                    items = batches[p_]["items"]
+                    ok = sum(1 for it in items if it[1] == "SUCCEEDED")
+                    fail = sum(1 for it in items if it[1] == "FAILED")
+                    nb = len(node.get("branches") or node.get("items") or [])
+                    cfgd = norm_completion(node)
+                    # only a minimum configured and a branch failed: the statement does not say whether that decides (not judged)
+                    minonly = cfgd.get("min_ok") is not None and cfgd.get("tol_n") is None and cfgd.get("tol_pct") is None
+                    verdicts.append(policy_decided(cfgd, ok, fail, nb) or (minonly and fail > 0))
+                p_ = ctx_path(p_)
+            if verdicts and not any(verdicts):
+                n += 1
+                out.append(V("C07", "C07/terminal-outcome-while-work-parked/%s" % s_.get("opkind"),
+                             "invocation %d returned %s although %s (%s) was parked and no enclosing map/parallel had been decided by its completion policy"
+                             % (inv, v.get("Status"), s_["path"], s_.get("opkind")), s_["i"]))
     stop = ix.r.get("stop")
     if stop == "stuck-pending":
         out.append(V("C07", "C07/execution-never-woken", "execution is PENDING with no timer armed, no external event awaited and nothing delivered during the invocation"))
